@@ -25,15 +25,17 @@ from vlib.core import digest
 
 PROPERTY = "C10"
 LEVEL = "exploration"
-RULE = ("Documents = 23 feature shapes (plain scenarios, outlines with 0-2 examples blocks of 0-3 rows, rules with and "
+RULE = ("Documents = 27 feature shapes (plain scenarios, outlines with 0-2 examples blocks of 0-3 rows, rules with and "
         "without background, empty rule, outline without examples, @setup/@teardown scenarios and outline; 4 shapes with DUPLICATE names: two scenarios 'Alpha', unnamed "
         "'Scenario:' entries, two outlines generating identical row names, same-named rules and scenarios across "
-        "rules; 4 shapes with @setup/@teardown on the feature, on rules, on an outline and on one examples block) "
+        "rules; 4 shapes with @setup/@teardown on the feature, on rules, on an outline and on one examples block; 4 shapes "
+        "with Examples sections WITHOUT a table - keyword only / named / tagged - before, between and after populated "
+        "blocks, next to a header-only table, and an outline with tableless Examples only) "
         "x 5 layouts "
         "(tight / blank / comment / blank+comment+tab-indent / tags on two lines with trailing comment, comment between "
         "tag and keyword, blank lines between table rows) x 2 headers (none / language comment + two feature tag lines + "
-        "description) = 230: 20 of them (quick) / all (thorough) for the multi-location sweeps. Per document: every single line 0..last+3 and the bare "
-        "name; all multisets of 2 (quick: on 20 documents; thorough: on all, and all multisets of 3) over {bare, 0, entity lines, entity "
+        "description) = 270: 24 of them (quick) / all (thorough) for the multi-location sweeps. Per document: every single line 0..last+3 and the bare "
+        "name; all multisets of 2 (quick: on 24 documents; thorough: on all, and all multisets of 3) over {bare, 0, entity lines, entity "
         "lines +/-1}; two-file lists in grouped and interleaved order; the same through @listfile (other directory, "
         "relative entries, comments, blank lines, padding) and with absolute paths. Every selection is observed twice "
         "(should_skip after parse_features; executed step functions + status after a real run). A single location "
@@ -117,11 +119,19 @@ SHAPES = [
              S("Omega")]),
     (True, [R("Rule one", [S("Alpha"), S("Beta", ("setup",))]), R("Rule two", [S("Gamma ray")], ("r1",))],
      ("ft9", "teardown")),
+    # --- Examples sections WITHOUT a table (B(None): keyword only / keyword + name / tagged; a description-only
+    #     Examples section is a ParserError, so it is not a document) before / between / after populated blocks of the
+    #     same outline, and an outline with tableless Examples only. Such a section has no rows, hence no scenarios;
+    #     its keyword line and the lines after it fall, by the nearest-above rule, to the entity above.
+    (False, [O("Out <a>", [B(None), B(2)]), S("Alpha")]),
+    (False, [S("Alpha"), O("Out <a>", [B(1), B(None, "named"), B(2, "E3")]), S("Omega")]),
+    (True, [O("Out <a>", [B(2), B(None, "tail", ("e1",))]), S("Alpha")]),
+    (False, [O("Only <a>", [B(None), B(None, "named")]), S("Alpha"), O("Out <a>", [B(1), B(0), B(None)])]),
 ]
 N_GAPS = 5
 N_HEADS = 2
 QUICK_DOCS = [(s, s % N_GAPS, s % N_HEADS) for s in (0, 1, 3, 4, 6, 7, 8, 9, 10, 11, 12, 14, 15, 16, 17, 18, 19, 20, 21,
-                                                             22)]
+                                                             22, 23, 24, 25, 26)]
 ALL_DOCS = [(s, g, h) for s in range(len(SHAPES)) for g in range(N_GAPS) for h in range(N_HEADS)]
 
 # layout table: pre = lines before an entity's tag block, mid = between tag line(s) and keyword,
@@ -210,6 +220,8 @@ def render(dockey):
                 emit_raw(lay["pre"], level + 1)
                 emit_tags(btags, level + 1)
                 emit(level + 1, "Examples:" + (" " + bname if bname else ""))
+                if nrows is None:
+                    continue                    # Examples keyword without any table
                 emit(level + 2, "| a |")
                 for ri in range(nrows):
                     emit_raw(lay["row"], level + 2)
@@ -610,6 +622,8 @@ def check_locations(case):
     from behave.configuration import Configuration
     results = []
     sb = Sandbox(dockeys)
+    real_out = sys.stdout, sys.stderr           # behave print()s "ERROR: ... NO-TABLE syndrome" while expanding
+    sys.stdout = sys.stderr = io.StringIO()
     try:
         reg = _registry()
         config = Configuration("", load_config=False)
@@ -661,6 +675,7 @@ def check_locations(case):
                             "out": digest((dockeys, tuple(outcome))),
                             "dg": sorted(ob.items())})
     finally:
+        sys.stdout, sys.stderr = real_out
         sb.close()
     return results
 
@@ -702,6 +717,8 @@ def check_spellings(case):
     _, dockeys, selections = case
     results = []
     sb = Sandbox(dockeys)
+    real_out = sys.stdout, sys.stderr
+    sys.stdout = sys.stderr = io.StringIO()
     try:
         reg = _registry()
         config = Configuration("", load_config=False)
@@ -787,6 +804,7 @@ def check_spellings(case):
                                            tuple(sorted(set(l for _, l, _ in log))))),
                             "dg": (order, sorted((os.path.basename(p_), l, n) for p_, l, n in log))})
     finally:
+        sys.stdout, sys.stderr = real_out
         sb.close()
     return results
 
@@ -857,6 +875,17 @@ def check_names(case):
     doc = render(dockey)
     reg = _registry()
     results = []
+    real_out = sys.stdout, sys.stderr
+    sys.stdout = sys.stderr = io.StringIO()
+    try:
+        return _check_names(dockey, patlists, doc, reg, results)
+    finally:
+        sys.stdout, sys.stderr = real_out
+
+
+def _check_names(dockey, patlists, doc, reg, results):
+    from behave.configuration import Configuration
+    from behave.parser import parse_feature
     for pats in patlists:
         sub = ("name", dockey, [pats])
         args = []
@@ -1091,7 +1120,7 @@ def run(ctx):
     two_q = [two[3], two[5], two[11]]
     ctx.bounds = {"documents": len(ALL_DOCS), "single_lines": "0..last+3 and bare name, all %d documents" % len(ALL_DOCS),
                   "pairs": "all multisets of 2 over {bare,0,entity lines,+/-1,last+1} on %d documents" % len(pair_docs),
-                  "triples": "none (quick)" if ctx.quick else "all multisets of 3 over the same set on all documents (real run on the 20 quick documents, should_skip only on the rest)",
+                  "triples": "none (quick)" if ctx.quick else "all multisets of 3 over the same set on all documents (real run on the 24 quick documents, should_skip only on the rest)",
                   "two_file_pairs": len(two_q) if ctx.quick else len(two),
                   "listfile_styles": list(LISTFILE_STYLES)}
 
